@@ -161,6 +161,38 @@ def const_cases(rng):
     return [Case(ex, ["const: %s" % flag], probes, (lambda tok, ex=ex: tok == ex) if flag == "true" else (lambda tok: True), "const")]
 
 
+NUM_SPELLINGS = {"12": ["12e0", "120e-1", "1.2e1", "1.2E+1", "0.12e2"], "1": ["1e0", "10e-1", "0.1e1", "1E+0"], "0": ["-0", "0.0e1", "-0.0e2"], "100": ["1e2", "1E+2", "1000e-1", "10.0e1"],
+                 "1.5": ["1.50", "15e-1", "0.15e1", "1.500"], "2.5": ["2.50", "25e-1", "0.25E+1"], "-3": ["-3e0", "-30e-1", "-0.3e1"]}
+
+
+def numeq(a, b):
+    """equality of two scalar tokens: numbers by value (C10: equality depends only on the normalised expansion), everything else by decoded text and kind"""
+    na, nb = N10.RFC.match(a), N10.RFC.match(b)
+    if na and nb:
+        return N10.value(a) == N10.value(b)
+    return a == b
+
+
+def enum_equal(a, b):
+    """membership test of enum: same kind (integer and float are different kinds: 2 is not 2.0) and, for numbers, the same value; other tokens by text"""
+    if N10.RFC.match(a) and N10.RFC.match(b):
+        return jtype(a) == jtype(b) and N10.value(a) == N10.value(b)
+    return a == b
+
+
+def numeq_cases(rng):
+    """const and enum on numbers: a re-spelling of the same number is the same number"""
+    out = []
+    ex = rng.choice(list(NUM_SPELLINGS))
+    probes = [ex] + NUM_SPELLINGS[ex] + [rng.choice(NUM_SPELLINGS[rng.choice(list(NUM_SPELLINGS))]) for _ in range(2)] + ['"%s"' % ex, "7", "7.25"]
+    out.append(Case(ex, ["const: true"], probes, lambda tok, ex=ex: numeq(tok, ex), "const"))
+    others = rng.sample([k for k in NUM_SPELLINGS if k != ex], 2) + rng.sample(['"a"', '"%s"' % ex, "true"], 1)
+    chosen = [ex] + others
+    rng.shuffle(chosen)
+    out.append(Case(ex, ["enum: [%s]" % ", ".join(chosen)], probes + NUM_SPELLINGS[others[0]][:2], lambda tok, chosen=chosen: any(enum_equal(tok, c) for c in chosen), "enum"))
+    return out
+
+
 def combo_cases(rng):
     """two rule families on one node: enum with look-alike values of several kinds + const: the value must be in the list AND equal the example"""
     items = ['"a"', "1", '"1"', "true", '"true"', "null", '"null"', "2.5", '"2.5"', '""']
@@ -188,8 +220,14 @@ def format_cases(rng):
     out.append(Case('"%s"' % u, ['type: "uuid"'], uprobes, lambda tok: uuid_ok(decoded(tok)), "uuid"))
     out.append(Case('"a@b.cc"', ['type: "email"'], ['"a@b.cc"', '"x.y@z.org"', '"no-at-sign"', '""', '"a@"'], lambda tok: decoded(tok) in ("a@b.cc", "x.y@z.org"), "email"))
     out.append(Case('"http://a.b/c"', ['type: "uri"'], ['"http://a.b/c"', '"https://x.org/p?q=1"', '"no scheme"', '""'], lambda tok: decoded(tok).startswith("http"), "uri"))
-    out.append(Case('"2020-01-01T00:00:00Z"', ['type: "datetime"'], ['"2020-01-01T00:00:00Z"', '"2020-02-29T23:59:59+02:00"', '"2021-02-29T00:00:00Z"', '"2020-01-01 00:00:00"', '"2020-01-01"', '""'],
-                    lambda tok: decoded(tok) in ("2020-01-01T00:00:00Z", "2020-02-29T23:59:59+02:00"), "datetime"))
+    # RFC 3339 section 5.6: date-time = full-date "T" full-time, "T"/"Z" in either case, time-secfrac = "." 1*DIGIT, hour 00-23, minute 00-59, second 00-60 (leap second),
+    # time-numoffset = ("+" / "-") hour ":" minute; the date is a day of the calendar
+    dt_ok = ["2020-01-01T00:00:00Z", "2020-02-29T23:59:59+02:00", "2020-01-01t00:00:00z", "2020-01-01T00:00:00.5Z", "2020-01-01T00:00:00.123456789-23:59", "2016-12-31T23:59:60Z",
+             "2016-12-31T15:59:60.7-08:00", "1985-04-12T23:20:50.52Z", "1996-12-19T16:39:57-08:00", "1937-01-01T12:00:27.87+00:20"]
+    dt_bad = ["2021-02-29T00:00:00Z", "2020-01-01 00:00:00", "2020-01-01", "", "2020-01-01T00:00:00,5Z", "2020-01-01T00:00:00.5+24:00", "2020-01-01T00:00:00+23:60", "2020-01-01T1:00:00Z",
+              "2020-01-01T24:00:00Z", "2020-01-01T00:60:00Z", "2020-01-01T00:00:61Z", "2020-01-01T00:00:00", "2020-01-01T00:00:00.Z", "2020-13-01T00:00:00Z", "2020-01-01T00:00:00+0100",
+              "2020-01-01T00:00:00Zx", " 2020-01-01T00:00:00Z", "20200101T000000Z"]
+    out.append(Case('"2020-01-01T00:00:00Z"', ['type: "datetime"'], ['"%s"' % x for x in dt_ok + dt_bad], lambda tok, dt_ok=dt_ok: decoded(tok) in dt_ok, "datetime"))
     return [rng.choice(out), out[0] if rng.random() < 0.3 else rng.choice(out)]
 
 
@@ -211,7 +249,7 @@ def run(ctx):
     cases = []
     n = 600 if quick else 6000
     for _ in range(n):
-        for gen in (num_cases, precision_cases, length_cases, regex_cases, enum_cases, const_cases, format_cases, combo_cases):
+        for gen in (num_cases, precision_cases, length_cases, regex_cases, enum_cases, const_cases, format_cases, combo_cases, numeq_cases):
             cases += gen(rng)
     lines, meta = [], []
     for c in cases:
